@@ -2359,9 +2359,11 @@ class Mesher:
             nodes = set(connect_r.ravel()) - otherRankNodes
             dict_rank_nodes[rank].update(nodes)
             Nn += len(nodes)
-            # find ghost elements
-            # Convert to array once and reuse
-            nodes_arr = np.array(list(nodes), dtype=int)
+            # find ghost elements: elements of the other ranks touching ANY node this rank owns,
+            # including the nodes it claimed through another element type (mixed QUAD+TRI or
+            # HEXA+PRISM meshes, boundary groups processed after the main one, points): every
+            # node used by this type is claimed at the latest during this type's pass.
+            nodes_arr = np.array(list(dict_rank_nodes[rank]), dtype=int)
             ghost_idx = set()
             for other_rank in range(Nproc):
                 if other_rank == rank:
@@ -2381,6 +2383,8 @@ class Mesher:
                 np.concatenate([idx_r, np.array(list(ghost_idx), dtype=int)])
             )
             connect_r_full = connect[all_idx]
+            # owned nodes of this group = nodes owned by the rank that the group uses
+            nodes_arr = np.intersect1d(nodes_arr, connect_r_full)
             # create groupElem with owned + ghost elements
             groupElem = GroupElemFactory._Create(gmshId, connect_r_full, coordinates)
             groupElem._Set_partitioned_data(
